@@ -60,19 +60,22 @@ def mutations(spec):
     """All one-token mutations applicable to the spec: list of (kind, function applying it to a deep copy)."""
     out = []
     dim = spec["dim"]
-    for ti, term in enumerate(spec["terms"]):
+    roots = [(("terms", ti), term) for ti, term in enumerate(spec["terms"])]
+    roots += [(("lets", li, "expr"), v["expr"]) for li, v in enumerate(spec.get("lets", []))]
+    for prefix, term in roots:
         for path, node in _walk(term):
             op = node[0]
-            full = ("terms", ti) + path
+            full = prefix + path
+            in_let = prefix[0] == "lets"
             if op in ("+", "-"):
-                out.append(("operator", full, ("op", "-" if op == "+" else "+")))
+                out.append(("operator_in_let" if in_let else "operator", full, ("op", "-" if op == "+" else "+")))
             elif op == "fn" and node[1] in FN_CLASS:
                 for f in FN_CLASS[node[1]]:
                     if node[1] in ("sqrt", "log", "sin", "cos", "abs") or f in ("sin", "cos"):
                         out.append(("function_name", full, ("fn", f)))
             elif op == "const":
-                out.append(("constant", full, ("const", float(node[1]) + 1.0)))
-                out.append(("constant", full, ("const", -float(node[1]) if node[1] != 0 else 2.0)))
+                out.append(("constant_in_let" if in_let else "constant", full, ("const", float(node[1]) + 1.0)))
+                out.append(("constant_in_let" if in_let else "constant", full, ("const", -float(node[1]) if node[1] != 0 else 2.0)))
             elif op == "dx":
                 if dim > 1:
                     out.append(("derivative_index", full, ("dxk", (int(node[2]) + 1) % dim)))
@@ -155,6 +158,8 @@ def _semantics(spec):
 def check_pair(spec, ctx):
     A = spec["form"]
     muts = mutations(A)
+    if spec.get("only_in_let"):
+        muts = [m for m in muts if m[1] is not None and m[1][0] == "lets"]
     if not muts:
         raise Skip("no applicable mutation")
     mut = muts[spec["pick"] % len(muts)]
@@ -206,6 +211,13 @@ def check_pair(spec, ctx):
 def strat_pair(draw):
     f = draw(gf.form(depth=2, max_terms=2))
     return {"form": f, "pick": draw(st.integers(0, 10 ** 6)), "on_demand": draw(st.integers(0, 7)) == 0}
+
+
+@st.composite
+def strat_let_pair(draw):
+    """Forms whose coefficient is a chain of user-defined variables; the mutated token lies in a variable's definition."""
+    f = draw(gf.nested_let_form())
+    return {"form": f, "pick": draw(st.integers(0, 10 ** 6)), "on_demand": False, "only_in_let": True}
 
 
 # ---------------------------------------------------------------------------------------------
@@ -433,6 +445,9 @@ SUBCHECKS = [
     Sub("static_pairs", check_pair, strategy=lambda tier: strat_pair(), quick=640, thorough=40000, floor=100, timeout_q=400,
         timeout_t=6000, rule="equal cache key => identical generated text, for (form, one-token mutant) pairs; same AST twice => "
                              "equal key and text"),
+    Sub("let_pairs", check_pair, strategy=lambda tier: strat_let_pair(), quick=320, thorough=10000, floor=50, timeout_q=400, timeout_t=6000,
+        rule="chains of user-defined variables (vf.let) where inner variables are referenced only from other variables' definitions; "
+             "the mutated token lies inside a definition (added after seeded change C13)"),
     Sub("dynamic", check_dynamic, strategy=lambda tier: strat_dynamic(), quick=16, thorough=96, shards=8, isolate=True, floor=2,
         timeout_q=900, timeout_t=7000, max_shrink_calls=4,
         rule="compile A, B, A, B in one process (and B, A, B, A): each returned class assembles ITS form (C01 oracle), cache hits "
